@@ -207,27 +207,30 @@ def stmt_programs(full=False, seed=0):
     that the order of execution is observable; conditions over the symbolic arguments"""
     rnd = random.Random(seed + 7)
     conds = ['p < q', 'p = 0', 'q = 1', '(p + 1) = q', 'p ~= q', '(p < 3) and (q < 3)', 'p >= 2']
-    def gen(depth, k):
-        """yield (statement text, number of markers used) of the given depth; k = next marker index"""
+    def gen(depth, k, top):
+        """yield (statement text, number of markers used) of the given depth; k = next marker index.
+        The thorough tier is exhaustive at depth 1 and samples wider below (the full set grows doubly exponentially)."""
         m = lambda i: f"put({65 + i % 26}, 0)"
         leaves = [(m(k), 1), (f"return {100 + k}", 0), ("stop", 0), (f"t := t + {k + 1}", 0), ("skip", 0)]
         if depth == 0:
             for x in leaves: yield x
             return
-        subs = list(gen(depth - 1, k + 1))
-        subs = subs if full else rnd.sample(subs, min(len(subs), 4))
-        for c in (conds if full else rnd.sample(conds, 2)):
+        subs = list(gen(depth - 1, k + 1, top))
+        exhaustive = full and top == 1
+        nsub, ncond, nb = (12, 4, 4) if full else (4, 2, 2)
+        if not exhaustive: subs = rnd.sample(subs, min(len(subs), nsub))
+        for c in (conds if exhaustive else rnd.sample(conds, ncond)):
             for a, na in subs:
-                for b, nb in (subs if full else rnd.sample(subs, min(len(subs), 2))):
-                    yield (f"if {c} then {a} else {b}", na + nb)
+                for b, nb_ in (subs if exhaustive else rnd.sample(subs, min(len(subs), nb))):
+                    yield (f"if {c} then {a} else {b}", na + nb_)
         for a, na in subs:
             yield (f"{{ i := 0; while i < 2 do {{ {a}; i := i + 1 }} }}", na)
-            for b, nb in (subs if full else rnd.sample(subs, min(len(subs), 2))):
-                yield (f"{{ {a}; {b} }}", na + nb)
-                yield (f"{{ {m(k)}; {a}; {b}; {m(k + 5)} }}", na + nb + 2)
+            for b, nb_ in (subs if exhaustive else rnd.sample(subs, min(len(subs), nb))):
+                yield (f"{{ {a}; {b} }}", na + nb_)
+                yield (f"{{ {m(k)}; {a}; {b}; {m(k + 5)} }}", na + nb_ + 2)
     out = []; seen = set()
     for depth in (1, 2, 3):
-        items = list(gen(depth, 0))
+        items = list(gen(depth, 0, depth))
         if not full: items = rnd.sample(items, min(len(items), 60 if depth < 3 else 90))
         for body, nm in items:
             if body in seen: continue
